@@ -378,8 +378,8 @@ def subs(tier: str):
     q = tier == "quick"
     out = [
         Sub("element-families", check_family, "exhaustive", cases=_family_cases, exhaustive_flag=True),
-        Sub("restricted-enumeration", check_restriction, "hypothesis", strategy=_restriction, examples=10 if q else 150),
-        Sub("identity", check_identity, "hypothesis", strategy=_identity, examples=100 if q else 2500),
+        Sub("restricted-enumeration", check_restriction, "hypothesis", strategy=_restriction, examples=10 if q else 400),
+        Sub("identity", check_identity, "hypothesis", strategy=_identity, examples=100 if q else 6000),
         Sub("name-format", _check_full_name_format, "hypothesis", strategy=lambda: st.fixed_dictionaries({"tuple": _tuple()}), examples=20 if q else 200),
         Sub("legacy-map", check_legacy_map, "exhaustive", cases=_legacy_cases, exhaustive_flag=True),
         Sub("cross-process", _replay_cross, "custom", run=_cross_process(150 if q else 600, ["0", "1", "4242"] if q else ["0", "1", "4242", "random", "31337"])),
